@@ -128,7 +128,7 @@ def floors(tier):
     s = 1 if q else 10
     return {
         "monitors": {"obstime_formats.conserved": 25000 * s, "csv.roundtrip": 6000 * s, "gpx.roundtrip": 1200 * s, "gpx.per_track_files": 200 * s,
-                     "net.roundtrip": 1000 * s, "net.second_read_after_the_first_was_modified": 300 * s, "wkt.roundtrip": 900 * s, "coord.within_written_precision": 90000 * s,
+                     "net.roundtrip": 1000 * s, "net.second_read_after_the_first_was_modified": 300 * s, "net.two_networks_with_the_same_identifiers": 150 * s, "wkt.roundtrip": 900 * s, "coord.within_written_precision": 90000 * s,
                      "timestamp.same_second": 25000 * s},
         "classes": {"csv": 5000, "gpx": 1200, "net": 1000, "wkt": 900, "sequence": 1000,
                     "srid_ENU": 1800, "srid_GEO": 1800, "srid_ECEF": 1800,
@@ -908,6 +908,36 @@ def step_net(st, ctx, work, si):
             mm = _net_diffs(si, t2, e_exp, n_exp)
             for m in mm:
                 m["tag"] = m["tag"] + "_on_second_read_after_the_first_network_was_moved_in_place"
+        if not mm and (len(e_exp) + si) % 2 == 1 and st["srid"] == "ENU":
+            # two networks used in turn: a second district whose nodes and edges carry the SAME identifiers at other
+            # places is written and read in the same process, then the first file is read once more
+            import copy as _copy
+            st_b = _copy.deepcopy(st)
+            st_b["nodes"] = {k: [v[0] * 0.5 + 1234.5, v[1] * 0.5 - 678.25] for k, v in st["nodes"].items()}
+            for e in st_b["edges"]:
+                e["inner"] = [[q[0] * 0.5 + 1234.5, q[1] * 0.5 - 678.25] for q in e["inner"]]
+            net_b = _build_network(st_b)
+            eb_exp, nb_exp = _net_truth(net_b)
+            path_b = path + ".b.csv"
+            try:
+                wb = M.call(NetworkWriter.writeToCsv, net_b, path_b, sep, st["h"])
+                rb = None if M.is_raised(wb) else M.call(NetworkReader.readFromFile, path_b, nf, False)
+                ctx.monitor("net.two_networks_with_the_same_identifiers")
+                if rb is not None and not M.is_raised(rb):
+                    tb = M.call(_net_truth, rb)
+                    if not M.is_raised(tb):
+                        mm = _net_diffs(si, tb, eb_exp, nb_exp)
+                        for m in mm:
+                            m["tag"] += "_of_a_second_network_with_the_same_identifiers"
+                    if not mm:
+                        r3 = M.call(NetworkReader.readFromFile, path, nf, False)
+                        t3 = None if M.is_raised(r3) else M.call(_net_truth, r3)
+                        if t3 is not None and not M.is_raised(t3):
+                            mm = _net_diffs(si, t3, e_exp, n_exp)
+                            for m in mm:
+                                m["tag"] += "_of_the_first_network_read_again_after_the_second"
+            finally:
+                _rm(path_b)
         if mm:
             mm[0]["file_head"] = _file_head(path)
         return mm
